@@ -30,6 +30,7 @@ type bstmt struct {
 	Else  []*bstmt
 	Count int
 	Fn    string
+	Form  string // while loops: "" increment last | "top" increment first | "forin" for over a range
 }
 
 type bcond struct {
@@ -70,10 +71,19 @@ func (e *bexpr) src() string {
 	case "mul":
 		return "(" + e.L.src() + " * " + e.R.src() + ")"
 	case "call":
+		if emitAwaitCalls {
+			// async variant: the helper runs as its own task and is awaited in place, so the body
+			// suspends with whatever operands the surrounding expression has already pushed
+			return "(await a" + e.Fn + "(" + e.L.src() + "))"
+		}
 		return e.Fn + "(" + e.L.src() + ")"
 	}
 	return "0"
 }
+
+// emitAwaitCalls switches the emitters to the awaiting form of helper calls
+// (case generation is sequential, so a package variable is enough).
+var emitAwaitCalls bool
 
 func (c *bcond) src() string {
 	op := map[string]string{"lt": "<", "gt": ">", "eq": "==", "ne": "!="}[c.Op]
@@ -221,9 +231,21 @@ func emitStmts(b *strings.Builder, stmts []*bstmt, ind string, yieldMode string)
 			}
 			fmt.Fprintf(b, "%send\n", ind)
 		case "while":
-			fmt.Fprintf(b, "%s%s = 0\n%swhile %s < %d\n", ind, s.Var, ind, s.Var, s.Count)
-			emitStmts(b, s.Then, ind+"  ", yieldMode)
-			fmt.Fprintf(b, "%s  %s = %s + 1\n%send\n", ind, s.Var, s.Var, ind)
+			switch s.Form {
+			case "top":
+				// the increment comes first, so the last statement of the body may be anything (a yield, an if ...)
+				fmt.Fprintf(b, "%s%s = 0 - 1\n%swhile %s < %s\n%s  %s = %s + 1\n", ind, s.Var, ind, s.Var, (&bexpr{Op: "lit", Lit: int64(s.Count - 1)}).src(), ind, s.Var, s.Var)
+				emitStmts(b, s.Then, ind+"  ", yieldMode)
+				fmt.Fprintf(b, "%send\n%s%s = %s + 1\n", ind, ind, s.Var, s.Var)
+			case "forin":
+				fmt.Fprintf(b, "%s%s = 0\n%sfor f%s in 0..<%d\n%s  %s = f%s\n", ind, s.Var, ind, s.Var, s.Count, ind, s.Var, s.Var)
+				emitStmts(b, s.Then, ind+"  ", yieldMode)
+				fmt.Fprintf(b, "%send\n%s%s = %d\n", ind, ind, s.Var, s.Count)
+			default:
+				fmt.Fprintf(b, "%s%s = 0\n%swhile %s < %d\n", ind, s.Var, ind, s.Var, s.Count)
+				emitStmts(b, s.Then, ind+"  ", yieldMode)
+				fmt.Fprintf(b, "%s  %s = %s + 1\n%send\n", ind, s.Var, s.Var, ind)
+			}
 		case "retif":
 			fmt.Fprintf(b, "%sreturn %s if %s\n", ind, s.E.src(), s.Cond.src())
 		case "throwif":
@@ -321,7 +343,7 @@ func (g *bodyGen) stmts(n int, depth int) []*bstmt {
 					b.Var = g.vars[len(g.vars)-1]
 				}
 			}
-			out = append(out, &bstmt{Kind: "while", Var: iv, Count: g.r.Range(0, 6), Then: body})
+			out = append(out, &bstmt{Kind: "while", Var: iv, Count: g.r.Range(0, 6), Then: body, Form: Pick(g.r, []string{"", "", "top", "forin"})})
 			g.vars = append(g.vars, iv)
 		case k < 15:
 			out = append(out, &bstmt{Kind: "retif", Cond: g.cond(), E: g.expr(1)})
@@ -360,7 +382,16 @@ func fixAssignTargets(stmts []*bstmt, loopVars map[string]bool, fallback string)
 	}
 }
 
-const bodyHelpers = `def h1(a: Int): Int
+const bodyHelpers = `async def ah1(a: Int): Int
+  h1(a)
+end
+async def ah2(a: Int): Int
+  h2(a)
+end
+async def ah3(a: Int): Int
+  h3(a)
+end
+def h1(a: Int): Int
   a * 3 - 1
 end
 def h2(a: Int): Int
@@ -439,10 +470,13 @@ func genBodyProgram(r *Rand, nBodies int) bodyProgram {
 		// "x" is a parameter: assignments to it are fine in Elk? keep a local copy instead
 		pre := "  x := x0\n"
 		if !yields {
+			awaitCalls := r.Chance(0.6)
 			for _, variant := range []struct{ kw, name string }{{"def", "f"}, {"def *", "g"}, {"async def", "a"}} {
+				emitAwaitCalls = awaitCalls && variant.name == "a"
 				fmt.Fprintf(&b, "%s%s%d(x0: Int): Int\n%s", variant.kw, fnSep(variant.kw)+variant.name, k, pre)
 				emitStmts(&b, stmts, "  ", "")
 				fmt.Fprintf(&b, "  %s\nend\n", final.src())
+				emitAwaitCalls = false
 			}
 			for _, x := range inputs {
 				env := &benv{vars: map[string]*big.Int{"x": big.NewInt(x)}, helpers: goHelpers()}
